@@ -36,11 +36,12 @@ static int openFds()
     if (DIR *d = opendir("/proc/self/fd")) { while (readdir(d)) ++n; closedir(d); }
     return n;
 }
-static int perConnectionObjects(Server *server)
+static int perConnectionObjects(QObject *root)
 {
-    // everything below the server except its private object and the handler tree
+    // per-connection objects below the server, or below the handler tree (ProxyHandler adopts its sockets)
     int n = 0;
-    for (QObject *o : server->findChildren<QObject *>()) {
+    if (!root) return 0;
+    for (QObject *o : root->findChildren<QObject *>()) {
         const char *cn = o->metaObject()->className();
         if (!strcmp(cn, "QHttpEngine::Socket") || !strcmp(cn, "QHttpEngine::SocketPrivate") || !strcmp(cn, "QTcpSocket") ||
             !strcmp(cn, "QSslSocket") || !strcmp(cn, "ProxySocket")) ++n;
@@ -132,7 +133,7 @@ static Val run_life(const Val &c)
         pumpMs(10);
     }
     pumpMs(30);
-    int live = server ? perConnectionObjects(server) : 0;
+    int live = perConnectionObjects(server) + perConnectionObjects(&scope);
     delete server;
     server = nullptr;
     pumpMs(30);
